@@ -86,6 +86,11 @@ def runTranspose (kv : List (String × String)) : String := Id.run do
     | .plain => ("plain", 1)
     | .blocked => ("blocked", cfg.native.lanes sz)
   let rn := if staged then rn ++ "+copy" else rn
+  -- the public entry points go through the generic assignment machinery (owned by other properties): for them only the
+  -- placement, the number of stores, the read set and the width are compared, not the order of stores and loads
+  let viaApi := match getS kv "api" with | some "raw" => false | none => false | _ => true
+  if viaApi then
+    return s!"route={rn} V={V} VAL={hex (digest14 mem)} NW={ws.length} RDA={hex (hashNats 0 (sortDedup rd))} MOOB={oob + roob}"
   return s!"route={rn} V={V} VAL={hex (digest14 mem)} WSEQ={hex wseq} NW={ws.length} RDA={hex (hashNats 0 (sortDedup rd))} RSEQ={hex (hashNats 0 rd)} MOOB={oob + roob}"
 
 end Fastor.Driver
